@@ -290,11 +290,15 @@ fn oracle(c: &Case, cl: &mut u64) -> Result<(), Failure> {
         state.insert(Random::new(c.seed));
         macro_rules! run_comp {
             ($comp:expr) => {{
-                let comp = $comp;
-                catch(|| Component::<RealP>::execute(&comp, &problem, &mut state))
+                // one case in six: inside 1-3 nested scopes, the population stack lives outside of them
+                let comp: Box<dyn Component<RealP>> = crate::fixtures::maybe_nested(Box::new($comp), c.seed);
+                catch(|| comp.execute(&problem, &mut state))
             }};
         }
         let r = dispatch!(run_comp);
+        if state.try_borrow::<Populations<RealP>>().is_err() {
+            fail!(format!("C11 {name} loses the population stack"), "{at}: executed inside {} nested scope(s): afterwards the state holds no population stack", crate::fixtures::nest_of(c.seed));
+        }
         let h0 = (c.below % 3) as usize + 1;
         match r {
             Ok(Ok(())) => {
